@@ -34,7 +34,7 @@ ASSUMPTIONS = [
     'list-valued conditions are non-empty (an empty list is neither "no condition" nor '
     'documented)',
     'sampling: returned rows are a subset of the unsampled answer with size inside a 6-sigma '
-    'band whose variance allows for per-flight (clustered) evaluation of the random test',
+    'binomial band (each instance kept independently)',
 ]
 SHARD_TIMEOUT = {'quick': 900, 'thorough': 5400}
 LEVEL_TEXT = ('Exploration: differential runtime check of the real query layer against an '
@@ -418,14 +418,8 @@ def run_shard(spec, rec):
                             n, p = len(expected), sample
                             lim_n = n if limit is None else None
                             if lim_n is not None:
-                                # SQLite may evaluate the row-independent random() test at the
-                                # flights loop level (all instances of a flight are then kept
-                                # or dropped together): bound the variance by that clustered
-                                # plan, which dominates the per-instance one.
-                                per_flight = {}
-                                for r in expected:
-                                    per_flight[r['flight_id']] = per_flight.get(r['flight_id'], 0) + 1
-                                sd = math.sqrt(p * (1 - p) * sum(v * v for v in per_flight.values()))
+                                # every instance is kept independently with probability p
+                                sd = math.sqrt(n * p * (1 - p))
                                 if abs(len(ids) - n * p) > 6 * sd + 1:
                                     raise Mismatch('sample size outside the 6-sigma binomial band',
                                                    {'got': len(ids), 'n': n, 'p': p, **d2})
